@@ -77,6 +77,7 @@ type ctx struct {
 	prop    string
 	mutants int
 	seen    map[string]bool // known classes already logged in this run
+	cont    map[string]bool // classes the kernel said to continue past (known finding, continue:true)
 	allocC  uint64          // allowed allocation = allocC*len(input) + allocFloor
 }
 
@@ -86,7 +87,7 @@ const allocFloor = 128 << 10
 
 func newCtx(k *kernel.K, allocC uint64) *ctx {
 	startWatchdog()
-	return &ctx{k: k, prop: k.Prop, seen: map[string]bool{}, allocC: allocC}
+	return &ctx{k: k, prop: k.Prop, seen: map[string]bool{}, cont: map[string]bool{}, allocC: allocC}
 }
 
 func (c *ctx) finish() {
@@ -119,11 +120,19 @@ func (c *ctx) report(oracle, class, format string, a ...any) {
 		}
 		return
 	}
+	if c.cont[oracle+"/"+class] {
+		// the kernel already said "known, continue" for this class in this run;
+		// asking again costs a regexp pass over known_findings.json per hit
+		c.k.Probe("known-finding-hit:" + class)
+		c.k.KnownHits[c.prop+"/"+oracle+"/"+class]++
+		return
+	}
 	c.finish()
 	// k.Violate stops the run, unless the class is registered in
 	// known_findings.json with "continue": true (then it is counted in
 	// KnownHits and the run goes on: nothing was mutated by a failed decode).
 	if c.k.Violate(c.prop, oracle, class, format, a...) {
+		c.cont[oracle+"/"+class] = true
 		c.k.Probe("known-finding-hit:" + class)
 	}
 }
